@@ -86,6 +86,7 @@ def type_name(schema, t):
     return ty["name"]
 
 
+HOSTILE_FIELDS = ["only_for_context", "cuda", "opencl", "cpu_serial", "cpu_openmp", "vectorize_over", "end_vectorize", "include_file", "for_context", "gpukern", "gpufun", "gpuglmem"]
 SHORT_NAMES = ["d", "f", "i", "u", "c", "v", "s", "e", "in", "un", "ch", "vo", "st", "fl", "lo", "sh", "si", "ui", "dou", "flo", "cha", "Rf", "RF", "rf"]
 
 
@@ -181,6 +182,12 @@ def gen_schema(rng, sw):
                 if not sw.get("dyn_struct") and is_dynamic(schema, ft):
                     ft = rng.choice(idx_sc)
                 f = [f"f{j}", ft]
+                if sw.get("hostile_fields") and rng.random() < 0.5:
+                    # field names from the vocabulary of the source specialiser (field names end up in
+                    # the names, and possibly the comments, of generated code)
+                    free = [x for x in HOSTILE_FIELDS if x not in [g[0] for g in fields]]
+                    if free:
+                        f[0] = rng.choice(free)
                 if schema[ft]["k"] == "sc" and sw.get("defaults") and rng.random() < 0.3:
                     f.append({"default": _small_scalar(rng, schema[ft]["t"])})
                 fields.append(f)
